@@ -236,7 +236,7 @@ func (w *World) ParamValue(key string, wellFormed bool) []byte {
 	case "pos/StakeDenom":
 		return jsonOf(Denom)
 	case "pos/StakeMinimum":
-		return jsonOf(int64(1000000)) // kept constant (DESIGN §7)
+		return nil // kept constant within a history (DESIGN §7)
 	case "pos/ProposerRewardPercentage":
 		return jsonOf(int8(r.PickI64(0, 50, 90, 100)))
 	case "pos/MaxEvidenceAge":
@@ -273,6 +273,16 @@ func (w *World) currentOwner(v *View, key string) *Actor {
 func (w *World) buildGovParam(v *View, cp CurParams) (*TxSpec, string) {
 	key := AllParamKeys[w.R.Intn(len(AllParamKeys))]
 	label := "govparam"
+	// parameters that lost their ACL entry are interesting targets: nobody may change them any more
+	if w.R.Chance(30) {
+		acl := aclKeys(v)
+		for _, k := range AllParamKeys {
+			if !acl[k] && w.ParamValue(k, true) != nil {
+				key, label = k, "govparam-ownerless"
+				break
+			}
+		}
+	}
 	owner := w.currentOwner(v, key)
 	sender := owner
 	if sender == nil || w.R.Chance(25) {
@@ -295,6 +305,18 @@ func (w *World) buildGovParam(v *View, cp CurParams) (*TxSpec, string) {
 	return w.honest(sender, msg, cp), label
 }
 
+func aclKeys(v *View) map[string]bool {
+	var acl govTypes.ACL
+	if s, ok := v.Params["gov/acl"]; ok {
+		_ = govTypes.ModuleCdc.UnmarshalJSON([]byte(s), &acl)
+	}
+	m := map[string]bool{}
+	for _, p := range acl {
+		m[p.Key] = true
+	}
+	return m
+}
+
 func (w *World) buildACL(v *View, cp CurParams) (*TxSpec, string) {
 	var acl govTypes.ACL
 	if s, ok := v.Params["gov/acl"]; ok {
@@ -304,6 +326,16 @@ func (w *World) buildACL(v *View, cp CurParams) (*TxSpec, string) {
 	n := w.All[w.R.Intn(len(w.All))]
 	na := append(govTypes.ACL{}, acl...)
 	na.SetOwner(key, n.Addr)
+	if w.R.Chance(25) && key != "gov/acl" {
+		// the new list simply omits a key (nothing validates a replacement list): that parameter then has no owner
+		var om govTypes.ACL
+		for _, pr := range acl {
+			if pr.Key != key {
+				om = append(om, pr)
+			}
+		}
+		na = om
+	}
 	sender := w.currentOwner(v, "gov/acl")
 	label := "acl"
 	if sender == nil || w.R.Chance(20) {
@@ -584,6 +616,9 @@ func (w *World) NextTx() ([]byte, string, *TxSpec) {
 	}
 	if s == nil {
 		return nil, "", nil
+	}
+	if s.SignedBy != nil && w.Reserved[s.SignedBy.AddrHex()] {
+		return nil, "", nil // a script is driving this actor
 	}
 	if w.R.Chance(w.P.HostilePct) {
 		label += "/" + w.Hostile(s, cp)
